@@ -437,6 +437,20 @@ func (w *World) DrawAction(rt *rapid.T, p *Profile) (Action, string) {
 				Daemon: rapid.IntRange(0, 5).Draw(rt, "daemon") == 0, Static: rapid.IntRange(0, 5).Draw(rt, "static") == 0}
 			return Action{Op: "replacePod", Names: []string{rapid.SampledFrom(names).Draw(rt, "pod")}, Pods: []PodSpec{ps}}, "replacePod"
 		}
+	case "retargetPod": // scheduling-gated pod admitted later: selector / affinity set in place
+		names := w.PodNames()
+		if len(names) > 0 {
+			ng2 := g
+			if ng > 1 {
+				ng2 = rapid.IntRange(0, ng-1).Draw(rt, "newGroup")
+			}
+			ps := PodSpec{Group: ng2, Via: rapid.SampledFrom([]string{"selector", "affinity", "none"}).Draw(rt, "via"), CPU: 1, Mem: 1}
+			return Action{Op: "retargetPod", Names: []string{rapid.SampledFrom(names).Draw(rt, "pod")}, Pods: []PodSpec{ps}}, "retargetPod"
+		}
+	case "resizeNode": // a node of a different instance type (mixed groups)
+		if n, ok := needNode(); ok {
+			return Action{Op: "resizeNode", Node: n, N: rapid.SampledFrom([]int{2, 3, 4}).Draw(rt, "factor")}, "resizeNode"
+		}
 	case "clearNode":
 		if n, ok := needNode(); ok {
 			return Action{Op: "clearNode", Node: n}, "clearNode"
